@@ -368,6 +368,24 @@ def step (s : DState) (toks : List String) : DState × String :=
       match (if dir = "F" then s.dom.maToFourier A else s.dom.maToReal A) with
       | .ok B => (s, s!"{spaceTok B.space} {fl B.data.toList}")
       | .error e => (s, errTok e)
+  -- ---------------- C18 Debyer: deb.chunk n c ; deb.calc self c nbins dk F n1 n2 | M1.. | M2.. | (L(3) R1(3 n1) R2(3 n2)) per frame, each after a bar
+  | ["deb.chunk", n, c] =>
+      let n := n.toNat!; let c := c.toNat!
+      if chunkOK n c then (s, " ".intercalate ((List.range c).map fun t => s!"{(chunkRow n c t).1} {(chunkRow n c t).2}")) else (s, "ERR rejected")
+  | "deb.calc" :: self :: c :: nbins :: dk :: nF :: n1 :: n2 :: rest =>
+      let self := self = "1"; let c := c.toNat!; let n1 := n1.toNat!; let n2 := n2.toNat!; let nF := nF.toNat!
+      match splitBar rest with
+      | _ :: m1 :: m2 :: frames =>
+        if !chunkOK n1 c then (s, "ERR rejected") else
+        let M1 := (nats m1).toArray; let M2 := (nats m2).toArray
+        let fr := (frames.map hexs).toArray
+        let frame : Nat → DebFrame Float := fun f =>
+          let a := fr[f]!
+          { n1 := n1, n2 := n2, M1 := fun i => M1[i]!, M2 := fun j => M2[j]!, L := fun x => a[x]!,
+            R1 := fun i x => a[3 + 3 * i + x]!, R2 := fun j x => a[3 + 3 * n1 + 3 * j + x]! }
+        (s, fl ((List.range nbins.toNat!).map fun q => debyer self c (hexToFloat dk) nF frame q))
+      | _ => (s, "bad-op")
+  | ["deb.mi", a, b, L] => (s, floatToHex (miComp (hexToFloat a) (hexToFloat b) (hexToFloat L)))
   | _ => (s, "bad-op")
 
 partial def loop (h : IO.FS.Stream) (out : IO.FS.Stream) (s : DState) : IO Unit := do
